@@ -71,13 +71,22 @@ class _Count(logging.Handler):
 
 
 def run_script(sc):
+    obs = _run_script(sc)
+    if obs.get("hang") and sched.TIMEOUT[0] > 3.0:
+        obs = _run_script(sc, 2 * sched.TIMEOUT[0])  # confirm: the machine may just be overloaded
+        if obs.get("hang"):
+            sched.hang_seen()
+    return obs
+
+
+def _run_script(sc, timeout=None):
     lg = logging.getLogger("concurrent.futures")
     h = _Count()
     old = lg.propagate
     lg.propagate = False
     lg.addHandler(h)
     try:
-        with sched.watchdog(3.0):
+        with sched.watchdog(timeout):
             return _run(sc, h)
     except sched.Hang:
         return {"hang": True}
